@@ -405,14 +405,28 @@ pub fn carry_check(ty: u8, g: u8, v: u8, rec: &Rec, got: &Item) -> Result<bool, 
                 .num
                 .ok_or_else(|| format!("analog reported in g{g}v{v}"))?;
             if x.is_nan() {
-                // NaN into an integer variation is left open by the statement; into a float variation it stays NaN
+                // into a float variation NaN stays NaN
                 match num {
                     Num::F32 | Num::F64 => {
                         if !got.value.is_nan() {
                             return Err(format!("NaN delivered as {} in g{g}v{v}", got.value));
                         }
                     }
-                    _ => return Ok(true),
+                    _ => {
+                        // an integer variation cannot represent NaN: whatever number is delivered, it must be flagged
+                        // ("where a variation cannot ... flagged OVER_RANGE; a value is never silently ...")
+                        // (a variation without a flag octet has no place for it, as for every out-of-range value)
+                        lossy = true;
+                        if sh.flags {
+                            if got.flags & OVER_RANGE == 0 {
+                                return Err(format!(
+                                    "NaN delivered as {} in the integer variation g{g}v{v} without OVER_RANGE (flags {:#04x})",
+                                    got.value, got.flags
+                                ));
+                            }
+                            want_flags |= OVER_RANGE;
+                        }
+                    }
                 }
             } else {
                 match num {
@@ -1395,7 +1409,7 @@ impl Prop for Trip {
 pub fn run<C: Codec>(tier: Tier) -> i32 {
     let mut ctx = Ctx::<C>::new("C10", tier);
     ctx.assumptions.push("trusted base: the carry() reference in harness/props/c10.rs (variation shapes from IEEE 1815 Annex A), the reference header walker; UpdateInfo is trusted to say whether an update created an event (C03 owns event loss)".into());
-    ctx.assumptions.push("not asserted: NaN into an integer variation; the time delivered for a record without time in a time-carrying variation; the sync quality delivered by absolute-time variations; state bits of user flags that contradict the value; +-infinity into a 32-bit float variation may be kept or saturated+flagged".into());
+    ctx.assumptions.push("not asserted: the number delivered for NaN in an integer variation (it must be flagged OVER_RANGE); the time delivered for a record without time in a time-carrying variation; the sync quality delivered by absolute-time variations; state bits of user flags that contradict the value; +-infinity into a 32-bit float variation may be kept or saturated+flagged".into());
     ctx.run::<Trip>();
     ctx.finish()
 }
